@@ -188,6 +188,29 @@ CLAIMED = {
         "searched for at run time. No axioms.",
    technique="Coq modular-arithmetic proof over encrypt histories of unbounded length; API run reading salts from the wire",
    ref="5 C14"),
+ "C09": dict(
+   text="Coq theorems C09_*: DigestAuth::sign (hand-written ipad/opad hashing of the key followed by 64-KS pad octets) equals RFC 2104 HMAC over "
+        "the whole message truncated to 96 bits and written at the offset, changing nothing else (C09_sign_is_hmac, C09_md5/sha1_sign_is_hmac, "
+        "C09_sign_changes_only_the_field); the bookmark after push_v3 is the offset of msgAuthenticationParameters in the final message "
+        "(C09_bookmark_is_field_offset); the emitted datagram is the reference v3 encoding with, in place of the twelve zero octets, "
+        "hmac96(localized key, message with the field zeroed), auth flag set (C09_message_mac*, C09_push_pdu_auth); without a key the field is "
+        "empty and the flag clear (C09_message_noauth).  Model sign vs DigestAuth::sign on 500 arbitrary messages (debug+release) and ~190 "
+        "datagrams of 21 real sessions (all digests x ciphers x key types, every header in short/0x81/0x82 form) verified with Python hmac.",
+   note="Trusted: Coq kernel; Gallina MD5/SHA-1 (RFC 1321 / FIPS 180 vectors in Coq, streaming law proved, compared with the md-5/sha1 crates "
+        "each run); key localization is C12; hand model tied by differential execution. No axioms.",
+   technique="Coq proof that the manual HMAC is RFC 2104 over an abstract streaming digest, instantiated with executable Gallina MD5/SHA-1; hmac oracle on real datagrams",
+   ref="5 C09"),
+ "C12": dict(
+   text="Coq theorems C12_*: password_to_master = digest of the first 2^20 octets of the password repeated forever (pure list identity + the "
+        "proved streaming law; C12_password_to_master, md5/sha1 instances), localize = H(Ku || engineID || Ku) (C12_localize*), the complete "
+        "decision table of as_key_type on the two key-type bits incl. refusal of empty passwords, wrong sizes and type 0xc0 "
+        "(C12_key_type_dispatch, C12_key_type_never_panics), algorithm codes (C12_algorithm_code), and the Python-visible functions never "
+        "panic (C12_get_master_key, C12_get_localized_key).  Extracted model (Gallina MD5/SHA-1, 1 MiB per key) vs the real functions incl. "
+        "RFC 3414 A.3 vectors, key-length sweep 0..64, unknown codes; sessions with password/master/localized keys verified with hashlib.",
+   note="Trusted: Coq kernel; Gallina MD5/SHA-1 as in C09; user.py key alignment is modelled in Model/Session.v and exercised by the session "
+        "runs of C12/C13. No axioms.",
+   technique="Coq proof of the A.2 identities over an abstract streaming digest + dispatch table; differential run incl. RFC vectors; hashlib oracle",
+   ref="5 C12"),
 }
 
 PENDING = "check not built yet in this round (see DESIGN.md section 7 for the order of work)"
